@@ -20,10 +20,16 @@ EXTENDS Naturals, Sequences, FiniteSets, TLC, Json
 
 CONSTANTS MaxCmds, ExactKeyMatch
 
-Keys == {"log_level", "output_format", "max_retries", "timeout", "greeting"}
-\* value ids: 1..2 valid, 3..7 type-ambiguous strings (greeting only), 9 invalid
-Vals(k) == IF k = "greeting" THEN 1..7 ELSE {1, 2, 9}
-Valid(k, v) == v # 9
+\* feature_flag: a key of the user's own (no schema, no default: unset until set)
+Keys == {"log_level", "output_format", "max_retries", "timeout", "greeting", "feature_flag"}
+\* value ids: 1..2 valid, 9 invalid;
+\*   greeting 3..7 and feature_flag 1..4: text that another reader would take for a number / boolean / null /
+\*     sexagesimal (007, 1e3, yes, null, on, 010, 1:30): text keys keep the text;
+\*   max_retries 3 = "010", timeout 3 = "0100": decimal integers with a leading zero (10 and 100, not octal);
+\*   timeout 4 = "1:30": not a number, rejected
+Vals(k) == CASE k = "greeting" -> 1..7 [] k = "feature_flag" -> 1..4 [] k = "max_retries" -> {1, 2, 3, 9}
+             [] k = "timeout" -> {1, 2, 3, 4, 9} [] OTHER -> {1, 2, 9}
+Valid(k, v) == v # 9 /\ ~(k = "timeout" /\ v = 4)
 
 VARIABLES file, hist, lastGet, lastExit
 vars == <<file, hist, lastGet, lastExit>>
@@ -35,6 +41,7 @@ Set(k, v) == /\ Len(hist) < MaxCmds
                                ELSE file' = file /\ lastExit' = 1
              /\ hist' = Append(hist, <<"set", k, v>>) /\ UNCHANGED lastGet
 Get(k) == /\ Len(hist) < MaxCmds
+          /\ (k = "feature_flag" => file[k] # 0)       \* reading a key that was never set is not part of the property
           /\ lastGet' = file[k] /\ lastExit' = 0
           /\ hist' = Append(hist, <<"get", k, 0>>) /\ UNCHANGED file
 Reset == /\ Len(hist) < MaxCmds
